@@ -332,6 +332,11 @@ func (g *Gen) randBatch(name string, cfg batchCfg) *BatchSpec {
 			if g.chance(0.2) {
 				cf.TV = "0" // e.g. a composite field created with the index-only option
 			}
+			if g.chance(0.4) {
+				// composed from the document's own fields the way bleve does it: the composite's
+				// locations are the very location objects of those fields
+				cf.Toks, cf.Compose = nil, true
+			}
 			d.Fields = append(d.Fields, cf)
 		}
 		b.Docs = append(b.Docs, d)
@@ -438,6 +443,9 @@ func (g *Gen) dumpStored(seg string) {
 		ids = append(ids, []byte(id))
 	}
 	ids = append(ids, []byte("absent-id"), []byte("zzzz-greater"), []byte("!less"))
+	g.emit("q docnums %s ids=- mut=1", seg)
+	g.emit("q docnums %s ids=-", seg)
+	g.emit("q docnums %s ids=%s mut=1", seg, hxList(ids))
 	g.emit("q docnums %s ids=%s", seg, hxList(ids))
 	// unknown ids (also ones beyond every key) may come anywhere in the list
 	shuffled := append([][]byte{[]byte("zzzz-greater"), []byte("~~")}, ids...)
@@ -559,6 +567,9 @@ func (g *Gen) genC01(n int) error {
 		}
 		b := g.randBatch(g.fresh("b"), cfg)
 		g.emitBatch(b)
+		if g.chance(0.1) {
+			b = g.rejectThenRetry(b)
+		}
 		s := g.fresh("s")
 		g.emit("build %s %s", s, b.Name)
 		g.newBuilt(s, b)
@@ -566,6 +577,35 @@ func (g *Gen) genC01(n int) error {
 		g.st("case")
 	}
 	return nil
+}
+
+// rejectThenRetry: the application's field validator rejects the batch (already emitted); the batch to
+// build next holds the same documents in another order.
+func (g *Gen) rejectThenRetry(b *BatchSpec) *BatchSpec {
+	rej := ""
+	for _, d := range b.Docs {
+		for _, f := range d.Fields {
+			if f.Kind == "fld" && f.Name != "_id" {
+				rej = f.Name
+			}
+		}
+	}
+	if rej == "" {
+		return b
+	}
+	g.emit("validator reject:%s", rej)
+	g.emit("build %s %s", g.fresh("x"), b.Name)
+	g.emit("validator none")
+	g.st("rejected-then-retry")
+	if len(b.Docs) < 2 {
+		return b
+	}
+	b2 := &BatchSpec{Name: g.fresh("b")}
+	for k := len(b.Docs) - 1; k >= 0; k-- {
+		b2.Docs = append(b2.Docs, b.Docs[k])
+	}
+	g.emitBatch(b2)
+	return b2
 }
 
 // bigBuildCase: more than 1024 documents and terms whose cardinalities sit on both sides of, and
@@ -814,7 +854,20 @@ func (g *Gen) genC04(n int) error {
 		g.emit("build %s %s", s, b.Name)
 		g.newBuilt(s, b)
 		f := g.fresh("f")
-		g.emit("persist %s %s", s, f)
+		if g.chance(0.15) {
+			// a longer file of an earlier, bigger segment is at the path already
+			cfgBig := g.defaultCfg()
+			cfgBig.minDocs, cfgBig.maxDocs = 12, 20
+			bb := g.randBatch(g.fresh("b"), cfgBig)
+			g.emitBatch(bb)
+			sb := g.fresh("s")
+			g.emit("build %s %s", sb, bb.Name)
+			g.emit("persist %s %s", sb, f)
+			g.emit("persist %s %s keep=1", s, f)
+			g.st("persist-over-longer")
+		} else {
+			g.emit("persist %s %s", s, f)
+		}
 		w := g.fresh("w")
 		g.emit("writeto %s %s", s, w)
 		g.emit("cmpfile %s %s", f, w)
@@ -836,7 +889,11 @@ func (g *Gen) genC04(n int) error {
 		}
 		g.dumpAll(s)
 		g.dumpAll(o)
+		// what a segment handed out stays valid after the segment is gone
+		kf := g.fresh("k")
+		g.emit("q keepfields %s %s", o, kf)
 		g.emit("close %s", o)
+		g.emit("showkept %s", kf)
 		g.emit("close %s", s)
 		g.emit("rmfile %s", f)
 		g.st("case")
@@ -1097,6 +1154,15 @@ func (g *Gen) bigMergeCase() {
 		g.emit("q post %s body %s ex=%d,%d fl=111 ops=A%d,N,N,A%d,N", m, hx([]byte(term)), total/2, total/2+1, total/2-1, total-3)
 	}
 	g.emit("q dict %s body aut=all lo=* hi=* probe=-", m)
+	// merged once more (by copying): the counts of the dictionary are still those of the survivors
+	f2 := g.fresh("f")
+	g.emit("merge %s segs=%s drops=nil", f2, m)
+	g.emit("footer %s", f2)
+	m2 := g.fresh("m")
+	g.emit("open %s %s", m2, f2)
+	g.emit("q dict %s body aut=all lo=* hi=* probe=-", m2)
+	g.emit("q post %s body %s ex=nil fl=111 ops=N,A%d,N,N,A%d,N,N", m2, hx([]byte("common")), total/2, total-2)
+	g.emit("close %s", m2)
 	g.emit("q dict %s tag aut=all lo=* hi=* probe=.", m)
 	g.emit("q post %s bodz %s ex=nil fl=111 ops=N,N,N,N,N", m, hx([]byte("zzz")))
 	g.emit("q post %s tag . ex=nil fl=111 ops=%s", m, g.nexts(total/30+4))
@@ -1113,6 +1179,11 @@ func (g *Gen) genMerge(prop string, n int) error {
 		g.emit("note case %d", i)
 		if prop == "C06" && i%107 == 53 {
 			g.bigMergeCase()
+			continue
+		}
+		if prop == "C06" && i%211 == 80 {
+			g.sparseDvMergeCase()
+			g.st("case")
 			continue
 		}
 		if prop == "C05" && i%211 == 7 {
@@ -1336,6 +1407,21 @@ func (g *Gen) genC07(n int) error {
 			g.emit("%s ops=%s", line, strList(ops))
 			g.st("rand")
 		}
+		// a list kept by the caller stays what it was when its iterator is recycled for another list
+		for _, seg := range segs {
+			field := fields[g.r.Intn(len(fields))]
+			terms := sortedKeys(u.Fields[field])
+			if len(terms) < 2 {
+				continue
+			}
+			nd := g.ndocs[seg]
+			ta, tb := hx([]byte(terms[0])), hx([]byte(terms[len(terms)-1]))
+			pa, pb, ix := g.fresh("p"), g.fresh("p"), g.fresh("i")
+			g.emit("q post %s %s %s ex=nil fl=111 pl=%s it=%s ops=N", seg, field, ta, pa, ix)
+			g.emit("q post %s %s %s ex=%s fl=111 pl=%s it=%s ops=N,N", seg, field, tb, intList([]int{g.r.Intn(nd)}), pb, ix)
+			g.emit("q post %s %s %s ex=nil fl=111 pl=%s relist=1 ops=%s", seg, field, ta, pa, g.nexts(nd+1))
+			g.emit("q post %s %s %s ex=nil fl=000 pl=%s it=%s relist=1 ops=%s", seg, field, ta, pa, ix, g.nexts(nd+1))
+		}
 		// the usual reuse pattern: a miss, a hit with the objects handed back, then a miss without prealloc
 		for _, seg := range segs {
 			field := fields[g.r.Intn(len(fields))]
@@ -1362,6 +1448,11 @@ func (g *Gen) genC08(n int) error {
 	}
 	for i := 0; i < n; i++ {
 		g.emit("note case %d", i)
+		if i%211 == 9 {
+			g.bigMergeCase()
+			g.st("case")
+			continue
+		}
 		depth := g.r.Intn(3)
 		body := func(seg string) {
 			u := g.univ[seg]
@@ -1784,4 +1875,57 @@ func (g *Gen) manySurvivorsCase() {
 		g.emit("close %s", m)
 	}
 	g.st("manysurvivors")
+}
+
+// sparseDvMergeCase: an input with more than 2048 documents in which a doc-value field has values in
+// its first and last chunk only (a whole chunk in the middle is absent), merged with a small segment.
+func (g *Gen) sparseDvMergeCase() {
+	g.curMode = 1026
+	g.emit("cfg chunkmode=1026")
+	nd := 2100 + g.r.Intn(40)
+	b := &BatchSpec{Name: g.fresh("b")}
+	for d := 0; d < nd; d++ {
+		id := []byte(fmt.Sprintf("%s-%d", b.Name, d))
+		doc := DocSpec{ID: id, Plain: true}
+		doc.Fields = append(doc.Fields, FieldSpec{Kind: "fld", Name: "_id", Typ: 't', Stored: true, Len: 1, Val: id, Toks: []TokSpec{{Term: id, Freq: 1}}})
+		if d < 10 || d >= 2060 {
+			doc.Fields = append(doc.Fields, FieldSpec{Kind: "fld", Name: "tag", Typ: 't', Len: 1, DV: true, Toks: []TokSpec{{Term: []byte(fmt.Sprintf("t%d", d%4)), Freq: 1}}})
+		}
+		b.Docs = append(b.Docs, doc)
+	}
+	g.emitBatch(b)
+	s := g.fresh("s")
+	g.emit("build %s %s", s, b.Name)
+	g.newBuilt(s, b)
+	b2 := &BatchSpec{Name: g.fresh("b")}
+	for d := 0; d < 5; d++ {
+		id := []byte(fmt.Sprintf("%s-%d", b2.Name, d))
+		doc := DocSpec{ID: id, Plain: true}
+		doc.Fields = append(doc.Fields, FieldSpec{Kind: "fld", Name: "_id", Typ: 't', Stored: true, Len: 1, Val: id, Toks: []TokSpec{{Term: id, Freq: 1}}})
+		doc.Fields = append(doc.Fields, FieldSpec{Kind: "fld", Name: "tag", Typ: 't', Len: 1, DV: true, Toks: []TokSpec{{Term: []byte("x"), Freq: 1}}})
+		b2.Docs = append(b2.Docs, doc)
+	}
+	g.emitBatch(b2)
+	s2 := g.fresh("s")
+	g.emit("build %s %s", s2, b2.Name)
+	g.newBuilt(s2, b2)
+	f := g.fresh("f")
+	g.emit("merge %s segs=%s,%s drops=3|nil", f, s, s2)
+	g.emit("footer %s", f)
+	m := g.fresh("m")
+	g.emit("open %s %s", m, f)
+	g.emit("q count %s", m)
+	g.emit("q dvfields %s", m)
+	for _, d := range []int{0, 2, 3, 8, 9, 1500, 2058, 2059, 2060, nd - 2, nd - 1, nd, nd + 3} {
+		src := fmt.Sprintf("%s:%d", s, d+1)
+		if d < 3 {
+			src = fmt.Sprintf("%s:%d", s, d)
+		}
+		if d >= nd-1 {
+			src = fmt.Sprintf("%s:%d", s2, d-(nd-1))
+		}
+		g.emit("q dvspec %s - fields=tag doc=%d src=%s", m, d, src)
+	}
+	g.emit("close %s", m)
+	g.st("sparsedv")
 }
